@@ -543,7 +543,9 @@ def check_order(fx, rep, rule, wv):
     # no reordering call on any Vec<Member>/Vec<Class>/BTreeMap on the write path
     bad = []
     n_calls = 0
-    for body in [b] + fx.closures_of(b["path"]):
+    # (the writer and every function of the crate it reaches: the record loop and the layout may live in private helpers)
+    scan = [fx.bodies[q] for q in sorted(fx.reachable([b["path"]])) if fx.bodies[q]["krate"] == "proguard" and "::cache::" in q]
+    for body in scan:
         for n in F.walk(body["body"]):
             if n.get("k") == "Call" and "fn" in n and n["args"]:
                 t0 = F.strip(n["args"][0]).get("ty", "") + n["args"][0].get("ty", "")
